@@ -61,7 +61,6 @@ PROPS = {
         "relevant_diff": anything,
         "assumptions": COMMON_ASSUME + ["*os.File behaves as a conforming io.Reader", "io.ReadFull / io.ReadAll hand-modelled (Reader.lean)"],
         "trusted_base": ["DetectReader control flow hand-modelled; tie: scripted-reader ops (delivered count, error class, result vs Detect)"],
-        "partial": ["reader_error: only the single failing Read is proved (read_at_error); the full statement 'error at offset k < header length => (errMIME, err) after exactly k bytes' is checked by correspondence + spec oracle only"],
     },
     "C17": {
         "slices": ["tree", "dets", "C17"],
